@@ -58,7 +58,7 @@ func runC20(c *Ctx) {
 	c.R.Floor(r1, 7)
 
 	const r2 = "C20.R2 subscriptions with history are retained"
-	keeps := clause("subscription has no history store", F(`^call:router\.\(\*broker\)\.syncKeepsHistory\(%b, `))
+	keeps := clause("subscription has no history store", F(`^call:router\.\(\*broker\)\.syncKeepsHistory\(%b, `), F(`^%b\.eventHistoryStore\[.*\],ok#1$`))
 	nDel := 0
 	for _, f := range []string{brk + "syncUnsubscribe", brk + "syncRemoveSession"} {
 		fn := c.Fn(r2, f)
@@ -70,7 +70,11 @@ func runC20(c *Ctx) {
 	}
 	c.OnlyCalledFrom(r2, "syncDelSubscription", `^router\.\(\*broker\)\.syncDelSubscription$`, `^router\.\(\*broker\)\.sync(Unsubscribe|RemoveSession)$`, 2)
 	kh := brk + "syncKeepsHistory"
-	c.Has(r2, kh, "retention test looks the subscription up in the history store", `^return:%b\.eventHistoryStore\[%sub\],ok#1$`, 1)
+	if c.P.Func(kh) != nil {
+		c.Has(r2, kh, "retention test looks the subscription up in the history store", `^return:%b\.eventHistoryStore\[%sub\],ok#1$`, 1)
+	} else {
+		c.R.OK(r2, "router", "retention test is the lookup in the history store itself (no helper)", "-", "")
+	}
 	// the store table is only written at construction
 	nW := 0
 	for _, fn := range c.P.FuncsIn("router") {
